@@ -528,6 +528,103 @@ def svSegs (vals : List (String × Nat)) : List (Nat × List Nat) :=
   vals.filterMap fun (name, v) =>
     (SV_FIELDS.find? (·.1 == name)).map fun (_, off, size, _, _) => (SV_BASE + off, leN size v)
 
+/-! ## struct layouts
+
+The struct definitions in force (`MachineController.structs`: the bundled `sark.struct`, the `structs=`
+argument, or what `boot()` installs) are a parameter of every probe that reads a struct field.  The
+functions above are the instance for the bundled definitions (regenerated tables); the `…L` functions below
+are the same code with the definitions as an argument. -/
+
+structure Layout where
+  svBase : Nat
+  svFields : List (String × Nat × Nat × Bool × Nat)
+  vcpuSize : Nat
+  vcpuFields : List (String × Nat × Nat × Bool × Nat)
+  deriving Repr
+
+/-- the bundled definitions -/
+def defaultLayout : Layout := ⟨SV_BASE, SV_FIELDS, VCPU_SIZE, VCPU_FIELDS⟩
+
+def svFieldL (L : Layout) (rd : Rd) (name : String) : Except String Nat :=
+  structField rd L.svFields L.svBase name
+
+def vcpuAddrL (L : Layout) (rd : Rd) (p : Nat) : Except String Nat := do
+  let base ← svFieldL L rd "vcpu_base"
+  pure (base + L.vcpuSize * p)
+
+def vcpuFieldL (L : Layout) (rd : Rd) (p : Nat) (name : String) : Except String Nat := do
+  let va ← vcpuAddrL L rd p
+  structField rd L.vcpuFields va name
+
+def iobufBytesL (L : Layout) (rd : Rd) (p fuel : Nat) : Except String (List Nat) := do
+  let size ← svFieldL L rd "iobuf_size"
+  let va ← vcpuAddrL L rd p
+  let first ← structField rd L.vcpuFields va "iobuf"
+  iobufLoop rd size fuel first []
+
+def decodeStatusL (L : Layout) (data : List Nat) : Except String Status := do
+  let st ← unpackFields data L.vcpuFields
+  let regs ← ["r0", "r1", "r2", "r3", "r4", "r5", "r6", "r7"].mapM (getInt st)
+  let users ← ["user0", "user1", "user2", "user3"].mapM (getInt st)
+  let name ← getStr st "app_name"
+  let name := strip0 name
+  if name.any (· ≥ 128) then .error "UnicodeDomain" else
+  let cpu ← getInt st "cpu_state"
+  if !validState cpu then .error "ValueError" else
+  let rt ← getInt st "rt_code"
+  if !RTE_VALUES.contains rt then .error "ValueError" else
+  let sw ← getInt st "sw_ver"
+  let _ ← getInt st "__PAD"
+  pure { registers := regs, psr := ← getInt st "psr", sp := ← getInt st "sp", lr := ← getInt st "lr",
+         rtCode := rt, physCpu := ← getInt st "phys_cpu", cpuState := cpu,
+         mboxApMsg := ← getInt st "mbox_ap_msg", mboxMpMsg := ← getInt st "mbox_mp_msg",
+         mboxApCmd := ← getInt st "mbox_ap_cmd", mboxMpCmd := ← getInt st "mbox_mp_cmd",
+         swCount := ← getInt st "sw_count", swFile := ← getInt st "sw_file",
+         swLine := ← getInt st "sw_line", time := ← getInt st "time", appName := name,
+         iobuf := ← getInt st "iobuf", appId := ← getInt st "app_id",
+         version := ((sw >>> 16) &&& 0xFF, (sw >>> 8) &&& 0xFF, (sw >>> 0) &&& 0xFF),
+         userVars := users }
+
+def processorStatusL (L : Layout) (rd : Rd) (p : Nat) : Except String Status := do
+  let va ← vcpuAddrL L rd p
+  decodeStatusL L (rd va L.vcpuSize)
+
+def p2pTableL (L : Layout) (rd : Rd) : Except String (List ((Nat × Nat) × Nat)) := do
+  let dims ← svFieldL L rd "p2p_dims"
+  p2pTableOfDims rd dims
+
+def getSystemInfoL (L : Layout) (rd : Rd) (probe : Nat × Nat → Option InfoReply) : Except String SysInfo :=
+  match p2pTableL L rd with
+  | .error e => .error e
+  | .ok t => systemInfo t probe
+
+/-- machine specification: the bytes of scalar `sv` fields under a layout -/
+def svSegsL (L : Layout) (vals : List (String × Nat)) : List (Nat × List Nat) :=
+  vals.filterMap fun (name, v) =>
+    (L.svFields.find? (·.1 == name)).map fun (_, off, size, _, _) => (L.svBase + off, leN size v)
+
+def writeAt (l : List Nat) (off : Nat) (b : List Nat) : List Nat :=
+  l.take off ++ b ++ l.drop (off + b.length)
+
+/-- the bytes of every field of the vcpu block, by name (widths as documented in sark.struct) -/
+def statusVals (s : Status) (swTop : Nat) (name16 pad : List Nat) : List (String × List Nat) :=
+  (["r0", "r1", "r2", "r3", "r4", "r5", "r6", "r7"].zip (s.registers.map le32)) ++
+  [("psr", le32 s.psr), ("sp", le32 s.sp), ("lr", le32 s.lr), ("rt_code", [s.rtCode]), ("phys_cpu", [s.physCpu]),
+   ("cpu_state", [s.cpuState]), ("app_id", [s.appId]), ("mbox_ap_msg", le32 s.mboxApMsg),
+   ("mbox_mp_msg", le32 s.mboxMpMsg), ("mbox_ap_cmd", [s.mboxApCmd]), ("mbox_mp_cmd", [s.mboxMpCmd]),
+   ("sw_count", le16 s.swCount), ("sw_file", le32 s.swFile), ("sw_line", le32 s.swLine), ("time", le32 s.time),
+   ("app_name", name16), ("iobuf", le32 s.iobuf), ("sw_ver", [s.version.2.2, s.version.2.1, s.version.1, swTop]),
+   ("__PAD", pad)] ++
+  (["user0", "user1", "user2", "user3"].zip (s.userVars.map le32))
+
+/-- machine specification: the vcpu block of a core under a layout - every field's bytes at the offset the
+layout gives it, filler elsewhere -/
+def statusBlockL (L : Layout) (s : Status) (swTop : Nat) (name16 pad : List Nat) : List Nat :=
+  let vals := statusVals s swTop name16 pad
+  L.vcpuFields.foldl (fun blk f => match vals.lookup f.1 with
+    | some b => writeAt blk f.2.1 b
+    | none => blk) (List.replicate L.vcpuSize 0xA5)
+
 /-! ## software version -/
 
 def isDigit (b : Nat) : Bool := 48 ≤ b && b ≤ 57
@@ -851,6 +948,18 @@ def p2pSegs (m : MachineState) : List (Nat × List Nat) :=
   (List.range m.dimW).map fun c =>
     (SPINNAKER_RTR_P2P + 128 * c, readMem (p2pMem m.entry) (SPINNAKER_RTR_P2P + 128 * c) (((m.dimH + 7) / 8) * 4))
 
+def fieldsOfJson (j : Json) (k : String) : R (List (String × Nat × Nat × Bool × Nat)) := do
+  (← arr j k).mapM fun e => do
+    match ← asArr e with
+    | [n, o, sz, st, c] => pure (← asStr n, ← asNat o, ← asNat sz, ← asBool st, ← asNat c)
+    | _ => .error "expected [name, offset, size, is_string, count]"
+
+/-- the struct definitions a request is made under (absent: the bundled ones, via the original functions) -/
+def layoutOfJson (j : Json) : R (Option Layout) :=
+  opt j "layout" fun l => do
+    pure { svBase := ← nat l "sv_base", svFields := ← fieldsOfJson l "sv_fields",
+           vcpuSize := ← nat l "vcpu_size", vcpuFields := ← fieldsOfJson l "vcpu_fields" }
+
 def probeOfJson (j : Json) : R (Nat × Nat → Option InfoReply) := do
   let l ← (← arr j "replies").mapM fun c => do pure (← xyOf c, ← infoReplyOfJson c)
   pure fun xy => l.lookup xy
@@ -862,7 +971,11 @@ def handle (op : String) (j : Json) : R Json := do
   | "spec_view" => pure (Json.mkObj (chipInfoFields (chipView (← chipStateOfJson j))))
   | "spec_p2p" =>
     let m ← machineStateOfJson j
-    pure (Json.mkObj [("mem", segsToJson ((SV_BASE + SV_P2P_DIMS_OFF, le16 (m.dimW * 256 + m.dimH)) :: p2pSegs m))])
+    match ← layoutOfJson j with
+    | none =>
+      pure (Json.mkObj [("mem", segsToJson ((SV_BASE + SV_P2P_DIMS_OFF, le16 (m.dimW * 256 + m.dimH)) :: p2pSegs m))])
+    | some L =>
+      pure (Json.mkObj [("mem", segsToJson (svSegsL L [("p2p_dims", m.dimW * 256 + m.dimH)] ++ p2pSegs m))])
   | "spec_core" =>
     -- image of one core: sv.vcpu_base, sv.iobuf_size, the vcpu block, the IOBUF chain, router counters
     let p ← nat j "p"
@@ -871,10 +984,18 @@ def handle (op : String) (j : Json) : R Json := do
     let blocks ← (← arr j "blocks").mapM blockOfJson
     let s := { s with iobuf := chainNext blocks }
     let diag ← nats j "diag"
-    pure (Json.mkObj [("mem", segsToJson (
-      [(SV_BASE + SV_VCPU_BASE_OFF, le32 vbase), (SV_BASE + SV_IOBUF_SIZE_OFF, le32 (← nat j "iobuf_size")),
-       (vbase + VCPU_SIZE * p, statusBytes s (← nat j "sw_top") (← nats j "name16") (← nats j "pad")),
-       (ROUTER_DIAG_ADDR, diag.flatMap le32)] ++ chainSegs blocks)),
+    let swTop ← nat j "sw_top"
+    let name16 ← nats j "name16"
+    let pad ← nats j "pad"
+    let isz ← nat j "iobuf_size"
+    let head : List (Nat × List Nat) := match ← layoutOfJson j with
+      | none =>
+        [(SV_BASE + SV_VCPU_BASE_OFF, le32 vbase), (SV_BASE + SV_IOBUF_SIZE_OFF, le32 isz),
+         (vbase + VCPU_SIZE * p, statusBytes s swTop name16 pad)]
+      | some L =>
+        svSegsL L [("vcpu_base", vbase), ("iobuf_size", isz)] ++
+          [(vbase + L.vcpuSize * p, statusBlockL L s swTop name16 pad)]
+    pure (Json.mkObj [("mem", segsToJson (head ++ [(ROUTER_DIAG_ADDR, diag.flatMap le32)] ++ chainSegs blocks)),
       ("text", jNats (chainText blocks)), ("status", statusToJson s)])
   | "spec_sver_legacy" =>
     pure (sverToJson (sverLegacy (← nat j "x") (← nat j "y") (← nat j "pcpu") (← nat j "vcpu") (← nat j "buf")
@@ -886,11 +1007,17 @@ def handle (op : String) (j : Json) : R Json := do
   | "dec_info" => pure (res (fun c => Json.mkObj (chipInfoFields c)) (decodeInfo (← infoReplyOfJson j)))
   | "p2p_table" =>
     let segs ← segsOfJson j
-    pure (res (fun t => jList (t.map fun (xy, r) => jNats [xy.1, xy.2, r])) (p2pTable (rdSegs segs)))
+    let t := match ← layoutOfJson j with
+      | none => p2pTable (rdSegs segs)
+      | some L => p2pTableL L (rdSegs segs)
+    pure (res (fun t => jList (t.map fun (xy, r) => jNats [xy.1, xy.2, r])) t)
   | "system_info" =>
     let segs ← segsOfJson j
     let probe ← probeOfJson j
-    match getSystemInfo (rdSegs segs) probe with
+    let gsi := match ← layoutOfJson j with
+      | none => getSystemInfo (rdSegs segs) probe
+      | some L => getSystemInfoL L (rdSegs segs) probe
+    match gsi with
     | .error e => pure (jErr e)
     | .ok si =>
       pure (jOk (Json.mkObj [("sysinfo", sysInfoToJson si),
@@ -915,14 +1042,28 @@ def handle (op : String) (j : Json) : R Json := do
       | _ => Json.null))
   | "spec_sv" =>
     let vals ← (← arr j "fields").mapM fun e => asPair e asStr asNat
-    pure (Json.mkObj [("mem", segsToJson (svSegs vals))])
-  | "sv_field" => pure (res jNat (svField (rdSegs (← segsOfJson j)) (← str j "name")))
-  | "vcpu_field" => pure (res jNat (vcpuField (rdSegs (← segsOfJson j)) (← nat j "p") (← str j "name")))
+    match ← layoutOfJson j with
+    | none => pure (Json.mkObj [("mem", segsToJson (svSegs vals))])
+    | some L => pure (Json.mkObj [("mem", segsToJson (svSegsL L vals))])
+  | "sv_field" =>
+    match ← layoutOfJson j with
+    | none => pure (res jNat (svField (rdSegs (← segsOfJson j)) (← str j "name")))
+    | some L => pure (res jNat (svFieldL L (rdSegs (← segsOfJson j)) (← str j "name")))
+  | "vcpu_field" =>
+    match ← layoutOfJson j with
+    | none => pure (res jNat (vcpuField (rdSegs (← segsOfJson j)) (← nat j "p") (← str j "name")))
+    | some L => pure (res jNat (vcpuFieldL L (rdSegs (← segsOfJson j)) (← nat j "p") (← str j "name")))
   | "p2p_ok" =>
     pure (Json.bool (p2pOk (← machineStateOfJson (← field j "state")) (← tableOfJson j "got")))
   | "val_ok" => pure (Json.bool ((← nat j "want") == (← nat j "got")))
-  | "iobuf" => pure (res jNats (iobufBytes (rdSegs (← segsOfJson j)) (← nat j "p") (← nat j "fuel")))
-  | "status" => pure (res statusToJson (processorStatus (rdSegs (← segsOfJson j)) (← nat j "p")))
+  | "iobuf" =>
+    match ← layoutOfJson j with
+    | none => pure (res jNats (iobufBytes (rdSegs (← segsOfJson j)) (← nat j "p") (← nat j "fuel")))
+    | some L => pure (res jNats (iobufBytesL L (rdSegs (← segsOfJson j)) (← nat j "p") (← nat j "fuel")))
+  | "status" =>
+    match ← layoutOfJson j with
+    | none => pure (res statusToJson (processorStatus (rdSegs (← segsOfJson j)) (← nat j "p")))
+    | some L => pure (res statusToJson (processorStatusL L (rdSegs (← segsOfJson j)) (← nat j "p")))
   | "diag" => pure (res jNats (routerDiagnostics (rdSegs (← segsOfJson j))))
   | "dec_sver" =>
     pure (res coreInfoToJson (decodeSver (← nat j "arg1") (← nat j "arg2") (← nat j "arg3") (← nats j "data")))
